@@ -15,27 +15,27 @@ import (
 )
 
 func Spec_ValuesRangeWithGroundZero(alternatives *[]AlternativeWithCriteria, criterion *Criterion) *utils.ValueRange {
-	valRange := CriteriaValuesRange(alternatives, criterion)
+	valRange := Spec_CriteriaValuesRange(alternatives, criterion)
 	minAbs := math.Abs(valRange.Min)
 	maxAbs := math.Abs(valRange.Max)
 	return &utils.ValueRange{
 		Min: 0,
-		Max: math.Max(math.Max(minAbs, maxAbs), valRange.Diff()),
+		Max: math.Max(math.Max(minAbs, maxAbs), valRange.Spec_Diff()),
 	}
 }
 
 func Spec_RescaleCriterion(c *Criterion, alternatives *[]AlternativeWithCriteria, target *utils.ValueRange) Weights {
-	currentRange := CriteriaValuesRange(alternatives, c)
+	currentRange := Spec_CriteriaValuesRange(alternatives, c)
 	scaledCriterionValues := make(Weights, len(*alternatives))
-	scale := GetScaleRatio(target, currentRange)
+	scale := Spec_GetScaleRatio(target, currentRange)
 	for _, a := range *alternatives {
-		scaledCriterionValues[a.Id] = scaleCriterion(c, a, currentRange, scale, target)
+		scaledCriterionValues[a.Id] = Spec_scaleCriterion(c, a, currentRange, scale, target)
 	}
 	return scaledCriterionValues
 }
 
 func Spec_scaleCriterion(c *Criterion, a AlternativeWithCriteria, currentRange *utils.ValueRange, scale float64, target *utils.ValueRange) Weight {
-	value := a.CriterionRawValue(c)
+	value := a.Spec_CriterionRawValue(c)
 	if c.Type == Cost {
 		return (currentRange.Max-value)*scale + target.Min
 	} else {
@@ -44,12 +44,12 @@ func Spec_scaleCriterion(c *Criterion, a AlternativeWithCriteria, currentRange *
 }
 
 func Spec_GetNormalScaleRatio(currentRange *utils.ValueRange) float64 {
-	return GetScaleRatio(&_normalRange, currentRange)
+	return Spec_GetScaleRatio(&_normalRange, currentRange)
 }
 
 func Spec_GetScaleRatio(target *utils.ValueRange, currentRange *utils.ValueRange) float64 {
-	targetDif := target.Diff()
-	currentDif := currentRange.Diff()
+	targetDif := target.Spec_Diff()
+	currentDif := currentRange.Spec_Diff()
 	scale := 0.0
 	if currentDif != 0 {
 		scale = targetDif / currentDif
